@@ -1,13 +1,14 @@
 #!/venv/bin/python
-"""confirm_seed.py <agent worktree> <N> <property id> [--name NAME]
+"""confirm_seed.py <agent worktree> <N> <property id> [store number]
 Independently confirm a sub-agent's mutation in a fresh scratch worktree of /repo:
  demo passes on the clean tree, fails with the patch, pinned baseline tests still pass with the patch.
 If confirmed, store it as /verif/seeded/<pid>-<N>/ (patch.diff, demo.py, meta.json).  The scratch worktree is removed."""
 import json, os, shutil, subprocess, sys, re
 wt, n, pid = sys.argv[1], sys.argv[2], sys.argv[3]
+store_n = sys.argv[4] if len(sys.argv) > 4 else n  # number under which the seed is stored (round 2: 3, 4)
 patch = os.path.join(wt, f"mutation_{n}.patch"); demo = os.path.join(wt, f"demo_{n}.py")
 assert os.path.exists(patch) and os.path.exists(demo), "missing deliverables"
-scratch = f"/tmp/confirm_{pid}_{n}"
+scratch = f"/tmp/confirm_{pid}_{store_n}"
 subprocess.run(["git", "-C", "/repo", "worktree", "remove", "--force", scratch], capture_output=True)
 subprocess.run(["git", "-C", "/repo", "worktree", "add", "-q", "--detach", scratch, "HEAD"], check=True)
 res = {}
@@ -34,7 +35,7 @@ ok = res.get("demo_clean_rc") == 0 and res.get("apply_rc") == 0 and res.get("dem
 res["confirmed"] = bool(ok)
 print(json.dumps(res, indent=1))
 if ok:
-    d = f"/verif/seeded/{pid}-{n}"
+    d = f"/verif/seeded/{pid}-{store_n}"
     os.makedirs(d, exist_ok=True)
     shutil.copy(patch, os.path.join(d, "patch.diff")); shutil.copy(demo, os.path.join(d, "demo.py"))
     notes = ""
@@ -42,7 +43,7 @@ if ok:
     if os.path.exists(np_):
         notes = open(np_).read()
         shutil.copy(np_, os.path.join(d, "agent_notes.md"))
-    meta = {"property": pid, "seed": f"{pid}-{n}", "source": "independent sub-agent given only the property text and a scratch worktree",
+    meta = {"property": pid, "seed": f"{pid}-{store_n}", "round": 2 if store_n != n else 1, "source": "independent sub-agent given only the property text and a scratch worktree",
             "needs_to_manifest": "see agent_notes.md (section for this mutation)", "confirmed_by": "tools/confirm_seed.py in a fresh scratch worktree of /repo HEAD",
             "ran": {"demo on clean tree (exit)": res["demo_clean_rc"], "demo with patch (exit)": res["demo_patched_rc"], "baseline_check with patch": res["baseline_out"], "diff": res.get("diff_stat")},
             "repo_head": subprocess.run(["git", "-C", "/repo", "rev-parse", "--short", "HEAD"], capture_output=True, text=True).stdout.strip()}
